@@ -5,6 +5,7 @@ package core
 import (
 	"fmt"
 	"go/ast"
+	"go/printer"
 	"go/token"
 	"go/types"
 	"os"
@@ -12,6 +13,7 @@ import (
 	"strings"
 	"sync"
 
+	"golang.org/x/tools/go/ast/astutil"
 	"golang.org/x/tools/go/callgraph"
 	"golang.org/x/tools/go/callgraph/cha"
 	"golang.org/x/tools/go/callgraph/vta"
@@ -284,4 +286,35 @@ func (p *Program) FuncDecl(fn *types.Func) *ast.FuncDecl {
 		}
 	})
 	return p.fnDecl[fn]
+}
+
+// SrcAt returns the source text of the smallest index / slice / call / composite
+// expression enclosing pos (for diagnostics and stable instance keys).
+func (p *Program) SrcAt(pos token.Pos) string {
+	if !pos.IsValid() {
+		return "?"
+	}
+	for _, pk := range p.Pkgs {
+		for _, f := range pk.Syntax {
+			if f.Pos() <= pos && pos < f.End() {
+				path, _ := astutil.PathEnclosingInterval(f, pos, pos)
+				for _, n := range path {
+					switch n.(type) {
+					case *ast.IndexExpr, *ast.SliceExpr, *ast.CallExpr, *ast.BinaryExpr, *ast.UnaryExpr, *ast.RangeStmt:
+						var sb strings.Builder
+						if rs, ok := n.(*ast.RangeStmt); ok {
+							n = rs.X
+						}
+						printer.Fprint(&sb, p.Fset, n)
+						s := sb.String()
+						if len(s) > 120 {
+							s = s[:120] + "..."
+						}
+						return strings.Join(strings.Fields(s), " ")
+					}
+				}
+			}
+		}
+	}
+	return "?"
 }
